@@ -87,7 +87,7 @@ def main(tier, seed, replay=None):
                 # first-wins slip there shows only when the set is enumerated in another order
                 c = EC.base_case(rng, p_focused=1.0, tmpls=[lambda r_, n_, l_: S.tmpl_qualified(r_, n_, l_, easy=True, n_pool=3), lambda r_, n_, l_: S.tmpl_qualified(r_, n_, l_, easy=True, n_pool=3), S.tmpl_qualified, S.tmpl_shared])
                 opts, api, fam = {}, "validate", "shape sets (qualified siblings, shared references)"
-            elif r < 0.44:
+            elif r < 0.5:
                 c = LV.gen_case(rng)
                 if rng.random() < 0.5:
                     # value sets whose members are equal 'up to something' the component normalises (language tags that differ
@@ -100,6 +100,16 @@ def main(tier, seed, replay=None):
                     for lit in rng.sample([Literal("colour", lang="en-GB"), Literal("color", lang="en-gb"), Literal("Farbe", lang="de"), Literal("couleur", lang="FR"),
                                            Literal("teinte", lang="fr"), Literal("c", lang="EN-gb")], rng.randint(2, 5)):
                         c["data"].add((fn_, EX.p, lit))
+                if rng.random() < 0.7:
+                    # the same sh:pattern text under different sh:flags in two shapes: each shape keeps its own reading, whichever is built first
+                    fn_ = rng.choice([n_ for n_ in c["nodes"] if isinstance(n_, URIRef)])
+                    for nm_, fl_ in (("PTa", None), ("PTb", "i")):
+                        ps_ = S.new_shape(EX[nm_], ("pred", str(EX.q)))
+                        ps_["targets"]["nodes"] = [fn_]
+                        ps_["comps"].append(("pattern", ["^ab+c$"], fl_))
+                        c["shapes"].append(ps_)
+                    for lit in rng.sample([Literal("abbc"), Literal("ABBC"), Literal("AbC"), Literal("xyz")], rng.randint(2, 4)):
+                        c["data"].add((fn_, EX.q, lit))
                 c["sg"] = S.shapes_to_rdf(c["shapes"])
                 opts, api, fam = {}, "validate", "core components"
             elif r < 0.62:
